@@ -31,6 +31,13 @@ func VerifRun_C15() {
 	line := 0
 	oneBlock := verifBool("oneBlock")
 	scope := []string{"", "public ", "protected ", "private "}[verifConcretize(verifRange("scope", 0, 3))] // documented visibility word, no effect on membership
+	// what stands directly above an annotation block: nothing, or a code line that ends in a trailing
+	// comment (which is that line's comment, not the beginning of the block below it)
+	above := verifConcretize(verifRange("above", 0, 2))
+	if above == 2 {
+		src += "local w0 = 1 -- note\n"
+		line++
+	}
 	fieldLine := make([]int, nc)
 	for i := 0; i < nc; i++ {
 		src += "---@class " + c15names[i]
@@ -84,6 +91,10 @@ func VerifRun_C15() {
 		typ = "M"
 		use = "v.k"
 		aliasCycle = true
+	}
+	if above == 1 {
+		src += "local w1 = 1 -- note\n"
+		line++
 	}
 	src += "---@type " + typ + "\n"
 	line++
